@@ -25,6 +25,22 @@ import (
 // them, so aliasing between registers shows), their abstractions and the per-step outcomes are
 // compared.  Direct predicates taken from the property texts are evaluated on the implementation alone.
 
+// The generation rules of the heap-level kinds are added to the properties' evidence texts here (the
+// property files keep only a one-line call each).
+func init() {
+	add := func(id, rule string, assumptions ...string) {
+		if p := registry[id]; p != nil {
+			p.Rule += " " + rule
+			p.Assumptions = append(p.Assumptions, assumptions...)
+		}
+	}
+	add("C06", "heap-overlay: histories of 4-17 steps over 3 layers and plain 1-3 component paths: Put of a leaf / list / list-free container node (the nodes are built up front in 7 ways: decoder, builder API, shared or own nil leaves, DAG), the SAME node handed in again, Add, Populate, Layers() snapshots at random points, Merged, in-place builder writes into a snapshot / into a node handed to Put or Add / into a node handed out by Lookup; always ends with a write into the overlay and two into snapshots; the real object graph is encoded as a heap by pointer identity and the executed history is replayed on the Lean heap model (lean/YtkModel/HeapOverlay.lean): outcomes, abstractions and the sharing maps of all handed-out nodes (layers' members, snapshots, Lookup results, merged views; one numbering of new objects) are compared; non-trivial: >= 2 overlay writes and a snapshot.",
+		"heap-overlay: Put of a container value that holds a list is skipped (Flatten names list items k[i]: outside the heap model's plain-name domain; the value-level kind covers it)")
+	add("C09", "heap-patch: a generated document (tree-shaped builds) and 6-19 operations from the seq generator, values prebuilt as nodes of their own; after every successful copy both the copy and the source are edited in place (probe writes through the builder API), after add / replace / move the attached node resp. the caller's value node; the executed history is replayed on the Lean heap model (lean/YtkModel/HeapPatch.lean): per-step outcomes, abstractions and sharing maps of the document and of every located node are compared; non-trivial: a step succeeds and one fails.",
+		"heap-patch: documents are trees as far as containers and lists go (one object at two places of a document is the caller's aliasing: JSON Patch then edits both places at once and a move can close a cycle)")
+	add("C13", "heap-patchop: a document and 2-6 pipeline PatchOps (add / replace / test / copy / move; immediate value decoded from YAML into the op's AnyVal, or valueFrom), each executed 1-3 times — the same op object again, a literal copy sharing the Value, CloneWith, or ONE forEach over 2-3 items with the item in the path — at different or equal locations; placed values are edited in place afterwards; replayed on the Lean heap model (patchOpDoH: Clone of the value source, then patch.Do): outcomes, abstractions, sharing maps. heap-setop: 1-3 SetOps (merge / replace) each executed 2-3 times (same object / literal copy sharing Data / CloneWith) at root, existing containers and new nested paths; replayed on setOpH (payload decoded anew per execution). Non-trivial: at least one re-execution.")
+}
+
 const hsMaxDepth = 64
 
 // hsBudget bounds the number of nodes one case may visit while observing: a caller-made DAG or a bug-made
